@@ -25,3 +25,79 @@ def lsim_cases(rng, profile, ncfg, nhist, modes=('consistent',), nev=(2, 14), ta
 
 def trace_has_output(case, it):
     return bool(it) and any(l.startswith('@') for l in it)
+
+
+def grid_schedules(rng, keys, gaps, nmax, count, tail):
+    """physically consistent random schedules over the given coordinates with gaps from a fixed set"""
+    out = []
+    for _ in range(count):
+        down = []
+        toks = []
+        for _ in range(rng.randint(2, nmax)):
+            k = rng.choice(keys)
+            if k in down:
+                down.remove(k); toks.append('r0,%d' % k)
+            else:
+                down.append(k); toks.append('p0,%d' % k)
+            g = rng.choice(gaps) if rng.random() < 0.45 else rng.choice([0, 1, 1, 2])
+            if g:
+                toks.append('t%d' % g)
+        rng.shuffle(down)
+        for k in down:
+            toks.append('r0,%d' % k)
+            g = rng.choice(gaps)
+            if g:
+                toks.append('t%d' % g)
+        toks.append('t%d' % tail)
+        out.append(toks)
+    return out
+
+
+def oneshot_sessions(rng, os_keys, plain, T):
+    """structured one-shot histories: 2-4 sessions of (pre-held plain key?) (tap/hold 1-3 one-shot keys) (ending)"""
+    toks = []
+    held = []
+
+    def gap(small=True):
+        g = rng.choice([0, 1, 1, 2, 3]) if small else rng.choice([T - 1, T, T + 1, T + 5])
+        if g:
+            toks.append('t%d' % g)
+
+    def press(k):
+        if k not in held:
+            held.append(k); toks.append('p0,%d' % k)
+
+    def release(k):
+        if k in held:
+            held.remove(k); toks.append('r0,%d' % k)
+    for _ in range(rng.randint(2, 4)):
+        pre = None
+        if rng.random() < 0.4:
+            pre = rng.choice(plain)
+            press(pre); gap()
+        for k in rng.sample(os_keys, rng.randint(1, len(os_keys))):
+            press(k); gap()
+            if rng.random() < 0.8:
+                release(k); gap()
+        if pre is not None and rng.random() < 0.5:
+            release(pre); gap()
+        ending = rng.choice(['expire', 'tap', 'hold-expire', 'repress', 'press-release-later', 'two'])
+        if ending == 'expire':
+            gap(False)
+        elif ending == 'tap':
+            k = rng.choice(plain); press(k); gap(); release(k); gap()
+        elif ending == 'hold-expire':
+            k = rng.choice(plain); press(k); gap(False); release(k); gap()
+        elif ending == 'repress':
+            k = rng.choice(os_keys); press(k); gap(); release(k); gap()
+        elif ending == 'press-release-later':
+            k = rng.choice(plain); press(k); gap(); k2 = rng.choice(plain); press(k2); gap(); release(k); gap(); release(k2); gap()
+        else:
+            k = rng.choice(plain); press(k); gap(); release(k); gap(); k2 = rng.choice(plain); press(k2); gap(); release(k2); gap()
+        for k in list(held):
+            if rng.random() < 0.7:
+                release(k); gap()
+    for k in list(held):
+        release(k); gap()
+    toks.append('t%d' % (T + 40))
+    return toks
